@@ -411,4 +411,108 @@ theorem values_join_eq_filter (ds : DSet) (g : Store) (κ : Row n) (G : P n)
     rw [hv, joinBag_singleton]
     exact filterMap_joinWith_eq_filter κ _ hb
 
+
+/-! ### a UNION tail joined by `_join` (the part before it already contains a join) -/
+
+theorem pair_joinWith {κ a : Row n} (ha : Sup κ a) (u : Row n) :
+    ((joinWith κ u).bind fun u' => if compat a u' then some (merge a u') else none) =
+      (if compat a u then some (merge a u) else none) := by
+  by_cases hc : compat a u = true
+  · have hcu : compat u κ = true := by
+      rw [compat_iff] at hc ⊢
+      intro v s t hu hk
+      exact (hc v t s (ha v t hk) hu).symm
+    have hc2 : compat a (merge u κ) = true := by
+      rw [compat_iff] at hc ⊢
+      intro v s t hav hm
+      simp only [merge] at hm
+      cases hu : u v with
+      | some x =>
+        simp only [hu, Option.some.injEq] at hm
+        subst hm
+        exact hc v s _ hav hu
+      | none =>
+        rw [hu] at hm
+        have := ha v t hm
+        rw [hav] at this; exact Option.some.inj this
+    have hm : merge a (merge u κ) = merge a u := by
+      funext v
+      simp only [merge]
+      cases hav : a v with
+      | some x => rfl
+      | none =>
+        cases hu : u v with
+        | some y => rfl
+        | none =>
+          cases hk : κ v with
+          | none => rfl
+          | some t => rw [ha v t hk] at hav; cases hav
+    simp [joinWith, hcu, hc, hc2, hm]
+  · have hcf : compat a u = false := by simpa using hc
+    simp only [hcf, Bool.false_eq_true, if_false]
+    by_cases hcu : compat u κ = true
+    · have hc2 : compat a (merge u κ) = false := by
+        rw [Bool.eq_false_iff]
+        intro h2
+        apply hc
+        rw [compat_iff] at h2 ⊢
+        intro v s t hav hu
+        exact h2 v s t hav (by simp [merge, hu])
+      simp [joinWith, hcu, hc2]
+    · have : compat u κ = false := by simpa using hcu
+      simp [joinWith, this]
+
+theorem joinBag_seed (κ : Row n) {A Aκ U Uκ : List (Row n)} (hA : Aκ.Perm (A.filter (supB κ)))
+    (hb : ∀ x ∈ A, BindsDom κ x) (hU : Uκ.Perm (U.filterMap (joinWith κ))) :
+    (joinBag Aκ Uκ).Perm ((joinBag A U).filter (supB κ)) ∧ ∀ y ∈ joinBag A U, BindsDom κ y := by
+  have key := seed_flatMap κ hA hb
+    (F1 := fun a => (U.filterMap (joinWith κ)).filterMap fun b => if compat a b then some (merge a b) else none)
+    (F2 := fun a => U.filterMap fun b => if compat a b then some (merge a b) else none)
+    (fun a ha => by
+      simp only [List.filterMap_filterMap]
+      congr 1
+      funext u
+      exact pair_joinWith ha u)
+    (fun a y hy => by
+      obtain ⟨b, _, hb'⟩ := List.mem_filterMap.mp hy
+      split at hb'
+      · cases hb'; exact Sup.merge a b
+      · cases hb')
+  refine ⟨?_, key.2⟩
+  refine (joinBag_perm (List.Perm.refl Aκ) hU).trans ?_
+  exact key.1
+
+theorem SeedClaim.uniStrict {ds : DSet} {gl : List Triple} {κ : Row n} {G : P n} (c : SeedClaim ds (graphStore gl) κ G)
+    (hl : G.noJoin = false) (ts1 ts2 : List (TP n)) :
+    SeedClaim ds (graphStore gl) κ (.join G (.union (.bgp ts1) (.bgp ts2))) := by
+  have hU : (evalTD ds κ (.union (.bgp ts1) (.bgp ts2)) (graphStore gl) κ).Perm
+      ((evalTD ds Row.empty (.union (.bgp ts1) (.bgp ts2)) (graphStore gl) Row.empty).filterMap (joinWith κ)) := by
+    simp only [evalTD, List.filterMap_append]
+    have one : ∀ ts : List (TP n), (evalBGP (graphStore gl) κ (dynOrder κ ts)).Perm
+        ((evalBGP (graphStore gl) Row.empty (dynOrder Row.empty ts)).filterMap (joinWith κ)) := by
+      intro ts
+      rw [evalBGP_seed_graph]
+      exact (evalBGP_graph_perm gl ((dynOrder_perm κ ts).trans (dynOrder_perm Row.empty ts).symm) Row.empty).filterMap _
+    exact (one ts1).append (one ts2)
+  have key := joinBag_seed κ c.seed c.binds hU
+  have hnl : (G.noJoin && (P.union (.bgp ts1) (.bgp ts2)).noJoin) = false := by simp [hl]
+  have e1 : ∀ init μ, evalTD ds init (.join G (.union (.bgp ts1) (.bgp ts2))) (graphStore gl) μ =
+      joinBag (evalTD ds init G (graphStore gl) μ) (evalTD ds init (.union (.bgp ts1) (.bgp ts2)) (graphStore gl) μ) := by
+    intro init μ
+    rw [evalTD, if_neg (by rw [hnl]; simp)]
+  refine ⟨by rw [e1, e1]; exact key.1, by rw [e1]; exact key.2, fun v hv => List.mem_append_left _ (c.vars v hv)⟩
+
+theorem SeedClaim.allTails {ds : DSet} {gl : List Triple} {κ : Row n} :
+    ∀ (tails : List (Tail n)) (G : P n), SeedClaim ds (graphStore gl) κ G →
+      SeedClaim ds (graphStore gl) κ (tails.foldl Tail.apply G)
+  | [], _, c => c
+  | .opt ts e :: r, G, c => by
+    simp only [List.foldl_cons, Tail.apply]
+    exact SeedClaim.allTails r _ (c.opt ts e)
+  | .uni a b :: r, G, c => by
+    simp only [List.foldl_cons, Tail.apply]
+    cases hl : G.noJoin with
+    | true => exact SeedClaim.allTails r _ (c.uni hl a b)
+    | false => exact SeedClaim.allTails r _ (c.uniStrict hl a b)
+
 end RV.C15
